@@ -10,10 +10,11 @@ Not decided: f64 rounding of chained multiplications; separator dependence of th
 import re
 from fractions import Fraction
 
-from ..facts import render, strip, alternatives, resolve_conds, cond_str, walk, AnchorLost, field_path
+from ..facts import fn_key, render, strip, alternatives, resolve_conds, cond_str, walk, AnchorLost, field_path
 from ..data import parse_code, abstract_tokens
 from ..tables import spec
 from ..common import check_binop_table, short_fn
+from .. import model
 
 
 def families(ctx):
@@ -171,7 +172,8 @@ def k3_kinds(ctx):
         raise AnchorLost('convert no longer calls calculate_unit for both the in-family and the bridged case')
     bridged = []
     for bid, t in calls:
-        num = render(b.expr(t['args'][1]))
+        from ..facts import inline_calls
+        num = render(inline_calls(ctx.facts, b.expr(t['args'][1]), depth=2))
         if 'basic_execute' in num:
             bridged.append((bid, t))
     if not bridged:
@@ -196,11 +198,25 @@ def k4_walk(ctx):
     ctx.rule('K4', 'shape of the unit walk', floor=4)
     b = ctx.facts.one(r'DynamicTypeItem::calculate_unit$')
     ctx.fn(b)
-    be = list(b.calls(r'SmartCalc::basic_execute$'))
+    be = model.deep_calls(ctx, b, r'SmartCalc::basic_execute$')
     if len(be) != 1:
-        raise AnchorLost('calculate_unit: expected one basic_execute call, found %d' % len(be))
-    bid, t = be[0]
-    arg = strip(b.expr(t['args'][0]))
+        raise AnchorLost('calculate_unit: expected one basic_execute call (in it or in a private helper), found %d' % len(be))
+    wb, t, bargs = be[0]
+    arg = strip(bargs[0])
+    src_n, tgt_n = b.arg_names.get(3, 'source_type'), b.arg_names.get(4, 'target_type')
+
+    def direction_of(c):
+        """'up' when the condition says target.index > source.index (the two are known to differ), 'down' for the opposite"""
+        m = re.fullmatch(r'\((\w+)\.index (Gt|Lt|Ge|Le) (\w+)\.index\)(!?)=\[0\]', c or '')
+        if not m or {m.group(1), m.group(3)} != {src_n, tgt_n}:
+            return None
+        l, op, r, neg = m.groups()
+        holds = neg == '!'
+        # normalise to a statement about (source ? target)
+        if l == tgt_n:
+            op = {'Gt': 'Lt', 'Lt': 'Gt', 'Ge': 'Le', 'Le': 'Ge'}[op]
+        src_less = op in ('Lt', 'Le')
+        return 'up' if src_less == holds else 'down'
     if arg[0] != 'call' or not re.search(r'str.*::replace$', arg[1]):
         raise AnchorLost('calculate_unit: basic_execute argument is not code.replace("{value}", ..): %s' % render(arg)[:120])
     code = arg[2][0]
@@ -214,17 +230,15 @@ def k4_walk(ctx):
             ctx.finding('K4', 'calculate_unit/code-selection-not-extractable', 'cannot extract which code string is applied: %s under %s' % (render(a)[:100], rc), site=t['loc'])
             continue
         seen[fields[0]] = direction[0]
-    want = {'upgrade_code': '(source_type.index Gt target_type.index)=[0]', 'downgrade_code': '(source_type.index Gt target_type.index)!=[0]'}
-    alt_ok = {'upgrade_code': ['(source_type.index Lt target_type.index)!=[0]', '(target_type.index Gt source_type.index)!=[0]'],
-              'downgrade_code': ['(source_type.index Lt target_type.index)=[0]', '(target_type.index Gt source_type.index)=[0]']}
+    want = {'upgrade_code': 'up', 'downgrade_code': 'down'}
     for f in ('upgrade_code', 'downgrade_code'):
         got = seen.get(f)
         if got is None:
             ctx.finding('K4', 'calculate_unit/%s-unused' % f, 'calculate_unit never applies %s' % f, site=t['loc'])
-        elif got == want[f] or got in alt_ok[f]:
-            ctx.ok('K4', '%s applied under %s' % (f, got), 'gamma', site=t['loc'])
+        elif direction_of(got) == want[f]:
+            ctx.ok('K4', '%s applied when walking %s (%s)' % (f, want[f], got), 'gamma', site=t['loc'])
         else:
-            ctx.finding('K4', 'calculate_unit/%s-direction' % f, '%s is applied under %s; it must be applied exactly when %s' % (f, got, want[f]), site=t['loc'])
+            ctx.finding('K4', 'calculate_unit/%s-direction' % f, '%s is applied under %s; it must be applied exactly when the walk goes %s (source index %s target index)' % (f, got, want[f], '<' if want[f] == 'up' else '>'), site=t['loc'])
     # the item whose code is applied is the *current* one: looked up by source_type.index first, then by the moving index
     item_txt = render(code)
     if not re.search(r'BTreeMap::get\(group, source_type\.index\)', item_txt):
@@ -247,11 +261,11 @@ def k4_walk(ctx):
         raise AnchorLost('calculate_unit: expected 4 index steps (2 initial, 2 in the loop), found %d' % len(steps))
     for op, c, direction, loc in steps:
         up = op.startswith('Add')
-        exp = want['upgrade_code'] if up else want['downgrade_code']
+        exp = 'up' if up else 'down'
         if c != '1':
             ctx.finding('K4', 'calculate_unit/step-size', 'unit walk moves the index by %s instead of 1' % c, site=loc)
-        elif direction != exp:
-            ctx.finding('K4', 'calculate_unit/step-direction', 'index %s under %s, expected under %s' % ('+1' if up else '-1', direction, exp), site=loc)
+        elif direction_of(direction) != exp:
+            ctx.finding('K4', 'calculate_unit/step-direction', 'index %s under %s, expected when walking %s' % ('+1' if up else '-1', direction, exp), site=loc)
         else:
             ctx.ok('K4', 'index %s1 under %s' % ('+' if up else '-', direction), 'gamma', site=loc)
     # which bridge code is used for which direction (semantics used by K2)
@@ -277,29 +291,46 @@ def k4_walk(ctx):
 
 def k4b_result(ctx):
     """K4b the result of calculate_unit is the walk's accumulator itself (no rounding, clamping or rescaling afterwards:
-    any absolute post-processing breaks linearity for small amounts); convert hands it on unchanged"""
+    any absolute post-processing breaks linearity for small amounts); convert hands it on unchanged. The accumulator is
+    identified by what it holds (the variable that receives the result of the step code inside the walk), not by its name."""
     ctx.rule('K4b', 'conversion result is the accumulated value', floor=3)
     b = ctx.facts.one(r'DynamicTypeItem::calculate_unit$')
     ctx.fn(b)
+    # the accumulator: locals assigned, inside the loop, a value that comes out of the step execution (in b or its helpers)
+    step_rx = r'SmartCalc::basic_execute$'
+    helpers = set(hb.path for hb, t_, a_ in model.deep_calls(ctx, b, step_rx) if hb.path != b.path)
+    acc = set()
+    for i in b.normal_blocks:
+        if not b.in_loop(i):
+            continue
+        bl = b.blocks[i]
+        for st in bl['stmts']:
+            if st['k'] == 'assign' and not st['lhs']['proj'] and st['lhs'].get('ty') == 'f64':
+                r = render(b.expr(st['ops'][0])) if st['ops'] else ''
+                if 'basic_execute' in r or any(fn_key(h).rsplit('::', 1)[-1] + '(' in r for h in helpers):
+                    acc.add(st['lhs']['local'])
+    # transitively: locals that are plain copies of an accumulator / initialised from the amount parameter
+    amount_param = [i for i in range(1, b.argc + 1) if b.locals.get(i) == 'f64']
+    names_ok = set(b.names.get(l) for l in acc if b.names.get(l)) | set(b.arg_names.get(i) for i in amount_param)
+    if not acc:
+        raise AnchorLost('calculate_unit: no variable receives the result of the step code inside the walk')
     n = 0
     for i in b.normal_blocks:
         for st in b.blocks[i]['stmts']:
             if st['k'] == 'assign' and st['lhs']['local'] == 0 and not st['lhs']['proj'] and st['rv'] == 'aggr' and st['adt'].endswith('Option::Some'):
                 n += 1
                 r = render(b.mexpr(st['ops'][0])).lstrip('$')
-                if r == 'number':
-                    ctx.ok('K4b', 'calculate_unit returns Some(number) unchanged', 'use-def', site=st['loc'], sample=n < 2)
+                if r in names_ok:
+                    ctx.ok('K4b', 'calculate_unit returns Some(%s): the accumulated amount, unchanged' % r, 'use-def', site=st['loc'], sample=n < 2)
                 else:
                     ctx.finding('K4b', 'calculate_unit/result-post-processed', 'calculate_unit returns %s instead of the accumulated amount: the conversion is no longer the composition of the configured steps' % r[:100], site=st['loc'])
     if n < 2:
         raise AnchorLost('calculate_unit: expected the same-unit and the walked result, found %d Some(..) results' % n)
-    # the accumulator is only ever assigned the step result
-    num = [l for l, nm in b.names.items() if nm == 'number']
     for i in b.normal_blocks:
         for st in b.blocks[i]['stmts']:
-            if st['k'] == 'assign' and st['lhs']['local'] in num and not st['lhs']['proj'] and b.in_loop(i):
-                r = render(b.sexpr(st['ops'][0])) if st['rv'] == 'use' else st['rv']
-                if st['rv'] != 'use' or 'basic_execute' not in render(b.expr(st['ops'][0])):
+            if st['k'] == 'assign' and st['lhs']['local'] in acc and not st['lhs']['proj'] and b.in_loop(i):
+                r = render(b.expr(st['ops'][0])) if st['rv'] == 'use' else st['rv']
+                if st['rv'] != 'use' or not ('basic_execute' in r or any(fn_key(h).rsplit('::', 1)[-1] + '(' in r for h in helpers)):
                     ctx.finding('K4b', 'calculate_unit/accumulator-write', 'inside the walk the amount is assigned %s, not the result of the step code' % r[:80], site=st['loc'])
     c = ctx.facts.one(r'DynamicTypeItem::convert$')
     ctx.fn(c)
